@@ -179,7 +179,7 @@ class MyPyAstVisitor:
                         )
                 else:
                     upper_bound = generic_type.upper_bound
-                    if upper_bound.__str__() != "builtins.object":
+                    if not _is_builtins_object(upper_bound):
                         variance_values = self.mypy_type_to_abstract_type(upper_bound)
 
                 type_parameters.append(
@@ -1044,7 +1044,7 @@ class MyPyAstVisitor:
         elif isinstance(mypy_type, mp_types.TypeVarType):
             upper_bound = mypy_type.upper_bound
             type_ = None
-            if upper_bound.__str__() != "builtins.object":
+            if not _is_builtins_object(upper_bound):
                 type_ = self.mypy_type_to_abstract_type(upper_bound)
 
                 if mypy_type.name == "Self":
@@ -1330,3 +1330,9 @@ def result_name_generator() -> Generator:
     while True:
         for x in range(1, 1000):
             yield f"result_{x}"
+
+
+def _is_builtins_object(mypy_type: mp_types.Type) -> bool:
+    """Check if a type is "builtins.object", which is the upper bound mypy assigns to unbounded type variables."""
+    # The string representation of the type differs between mypy versions, therefore we check the type info
+    return isinstance(mypy_type, mp_types.Instance) and mypy_type.type.fullname == "builtins.object"
